@@ -21,7 +21,13 @@ def d17_shape(plan):
         return True
     # … or omits every argument while the trait's where-clause still mentions a defaulted parameter (`trait Kita<P0 = u8> where P0: Clone`)
     omitted = lambda f: [g[1] for g in plan.trait_generics[len(f.targs):] if g[0] == "ty"]
-    return any(re.search(r"\b" + re.escape(p) + r"\b", plan.trait_where or "") for f in plan.families if len(f.targs) < ngen for p in omitted(f))
+    if any(re.search(r"\b" + re.escape(p) + r"\b", plan.trait_where or "") for f in plan.families if len(f.targs) < ngen for p in omitted(f)):
+        return True
+    # … or an ITEM of the trait mentions the omitted parameter (`tpfn`: in its signature, `pdfn`: in its default body; both name the trait's
+    # first type parameter): C16_omitted_default_counterexample is exactly this shape
+    tp0 = next((g[1] for g in plan.trait_generics if g[0] == "ty"), None)
+    mentions = tp0 is not None and any(k in ("tpfn", "pdfn") for k, _, _ in plan.items)
+    return mentions and any(tp0 in omitted(f) for f in plan.families if len(f.targs) < ngen)
 
 
 def d18_shape(plan):
